@@ -259,8 +259,9 @@ class Builder:
         return c.n_modes - len(c._internal_modes)
 
     def leaf(self, n, n_steps, log, heralds=0, herald_neq_p=0.5):
-        c = self.lw.Circuit(n)
+        c = self.lw.Circuit(self.F(n))      # the mode count, too, may be any integer-valued number
         log.append(["circuit", n])
+        self._note_forms(log)
         for _ in range(n_steps):
             self.primitive(c, log, n)
         self.add_heralds(c, log, heralds, herald_neq_p)
@@ -323,8 +324,9 @@ class Builder:
                 c = c + c
                 log.append(["plus_self"])
         else:
-            c = lw.Circuit(n)
+            c = lw.Circuit(self.F(n))
             log.append(["circuit", n])
+            self._note_forms(log)
         n_children = int(rng.integers(1, max_children + 1)) if depth > 0 else 0
         actions = ["prim"] * int(rng.integers(steps[0], steps[1] + 1)) + ["child"] * n_children
         rng.shuffle(actions)
